@@ -32,6 +32,7 @@ FIXED = [
  ("fix: do not reference an entry in the variant index when storing it failed", ["C06", "C10"], "index rewritten with a reference to an entry whose Set failed (body read failure, store fault)"),
  ("fix: reuse the index reference of a response id", ["C19"], "every request for a Vary: * resource appended a record to the index"),
  ("fix: never store or replay hop-by-hop fields", ["C05"], "HTTP/1.0 entries replayed Connection: close; fields named on a second Connection line were stored and replayed"),
+ ("fix: remove the TE header field when storing", ["C05"], "a TE response field was stored and replayed (hop-by-hop table keyed by 'TE', header keys are canonical 'Te')"),
  ("fix: make fscache writes atomic", ["C15"], "in-place truncate+write: torn concurrent reads, and a write cut at byte k left a k-byte value that Get returned"),
  ("fix: treat a stored entry with a truncated body as corrupted", ["C10", "C15"], "a store returning an entry whose body is cut short was served as HIT and the client's body read ended in unexpected EOF (base scenarios x fault 'truncated-body')"),
  ("fix: concurrent Sets of keys that share a directory", ["C14"], "two goroutines storing different long keys with a common directory prefix: one Set failed with 'mkdirat ...: file exists'"),
